@@ -22,7 +22,7 @@ WRITERS = ('default', 'LuaEchoWriter', 'LuaASTEchoWriter', 'LuaMinifyWriter',
 PRIORS = ('absent', 'cart', 'garbage', 'empty')
 LIB_ROUTES = ('lib', 'lib-overwrite')
 CLI_ROUTES = ('writep8', 'luamin', 'luafmt', 'luafmt-overwrite', 'build',
-              'build-minify')
+              'build-minify', 'luamin-2files', 'writep8-2files')
 EXT = {'p8': '.p8', 'png': '.p8.png'}
 
 CODE_SAMPLES = (
@@ -111,6 +111,9 @@ def matrix():
             for p in PRIORS:
                 cli_combos.append((r, f, None, p))              # 24
     cli_combos += [('luafmt-overwrite', 'p8', None, 'cart')] * 4
+    for r in ('luamin-2files', 'writep8-2files'):
+        for p in PRIORS:
+            cli_combos.append((r, 'p8', None, p))                 # 8
     for r in ('build', 'build-minify'):
         for f in ('p8', 'png'):
             for p in PRIORS:
@@ -133,7 +136,8 @@ def base_scenario(rng, index):
         'engine': NAME, 'route': route, 'fmt': fmt, 'writer': writer,
         'prior': prior,
         'src_fmt': fmt if route in ('lib-overwrite', 'luafmt-overwrite',
-                                    'writep8', 'luamin', 'luafmt')
+                                    'writep8', 'luamin', 'luafmt',
+                                    'luamin-2files', 'writep8-2files')
         else rng.choice(['p8', 'png']),
         'cart': _cart_spec(rng),
         'prior_cart': _cart_spec(rng),
@@ -190,7 +194,8 @@ INTERNAL_FAULTS = (
     [{'kind': 'LABEL-BAD', 'how': h}
      for h in ('missing', 'empty', 'garbage', 'truncated', 'directory',
                'dest-garbage', 'dest-truncated-png')] +
-    [{'kind': 'RECURSION', 'limit': n} for n in (60, 90, 120, 160, 220)]
+    [{'kind': 'RECURSION', 'limit': n} for n in (60, 90, 120, 160, 220)] +
+    [{'kind': 'ROM-DEST'}, {'kind': 'ROM-DEST'}]
 )
 CLI_INTERNAL_FAULTS = (
     [{'kind': 'ARG-BAD', 'how': h}
@@ -212,15 +217,28 @@ BUILD_INTERNAL_FAULTS = (
 
 def _dest_rel(sc):
     r = sc['route']
+    if (sc.get('fault') or {}).get('kind') == 'ROM-DEST' and r == 'lib':
+        # .rom is a recognised cart type whose encoder is not implemented:
+        # a natural "encoder raises"
+        return 'out/dest.rom'
     if r == 'lib':
         return 'out/dest' + EXT[sc['fmt']]
     if r in ('lib-overwrite', 'luafmt-overwrite'):
         return 'in/src' + EXT[sc['src_fmt']]
-    if r in ('writep8', 'luamin', 'luafmt'):
+    if r in ('writep8', 'luamin', 'luafmt', 'luamin-2files',
+             'writep8-2files'):
         return 'in/src_fmt' + EXT[sc['src_fmt']]
     if r.startswith('build'):
         return 'out/dest' + EXT[sc['fmt']]
     raise core.HarnessError(r)
+
+
+def _dests(sc):
+    """All destinations of the operation, in processing order."""
+    d = [_dest_rel(sc)]
+    if sc['route'].endswith('-2files'):
+        d.append('in/src2_fmt.p8.png')
+    return d
 
 
 def _prior_bytes(sc, dest_rel):
@@ -340,10 +358,13 @@ def _setup(w, sc):
         return dest_rel, op
 
     # CLI routes through tool.main
-    if route in ('writep8', 'luamin', 'luafmt', 'luafmt-overwrite'):
+    if route in ('writep8', 'luamin', 'luafmt', 'luafmt-overwrite',
+                 'luamin-2files', 'writep8-2files'):
         cmd = {'writep8': ['writep8'], 'luamin': ['luamin'],
                'luafmt': ['luafmt'],
-               'luafmt-overwrite': ['luafmt', '--overwrite']}[route]
+               'luafmt-overwrite': ['luafmt', '--overwrite'],
+               'luamin-2files': ['luamin'],
+               'writep8-2files': ['writep8']}[route]
         argv = list(sc.get('global_flags') or []) + list(cmd) + [
             w.subst(a) for a in (sc.get('cli_flags') or [])]
         if fk == 'ARG-BAD' and how == 'keep-names-missing' and \
@@ -353,6 +374,13 @@ def _setup(w, sc):
                 route.startswith('luafmt'):
             argv += ['--indentwidth', 'wide']
         argv.append(w.p(src_rel))
+        if route.endswith('-2files'):
+            second = refcodec.cart_from_spec(sc['prior_cart'])
+            w.put('in/src2.p8.png', refcodec.encode_p8png(second))
+            argv.append(w.p('in/src2.p8.png'))
+            pb = _prior_bytes(sc, 'in/src2_fmt.p8.png')
+            if pb is not None and sc['prior'] != 'garbage':
+                w.put('in/src2_fmt.p8.png', pb)
     else:
         b = sc.get('build') or {}
         argv = list(sc.get('global_flags') or []) + ['build', dest] + [
@@ -423,7 +451,9 @@ def execute(sc, profile=False):
             ev.append(('setup-failed', world.describe_exc(e, w)))
             res['states'].append('setup-failed|%s' % type(e).__name__)
             return res
-        before = w.snap(dest_rel)
+        dests = _dests(sc)
+        befores = [w.snap(d) for d in dests]
+        before = befores[0]
         files_before = set(w.listing())
         write_plan = fault if fk in ('W-ERR', 'W-TORN') else None
         tracer = None
@@ -435,7 +465,12 @@ def execute(sc, profile=False):
             if tracer is not None:
                 tracer.armed = False
 
-        er = world.EncoderRun(write_plan, on_return)
+        def on_enter():
+            # the next cart's production phase begins (multi-file commands)
+            if tracer is not None and tracer.fired is None:
+                tracer.armed = True
+
+        er = world.EncoderRun(write_plan, on_return, on_enter)
         exc = None
         rc = None
         base_limit = sys.getrecursionlimit()
@@ -453,7 +488,8 @@ def execute(sc, profile=False):
                 sys.settrace(None)
                 sys.setrecursionlimit(base_limit)
         opens = w.stop_io_log()
-        after = w.snap(dest_rel)
+        afters = [w.snap(d) for d in dests]
+        after = afters[0]
         files_after = set(w.listing())
 
         op_failed = exc is not None or (rc not in (0, None))
@@ -469,12 +505,31 @@ def execute(sc, profile=False):
         if fired:
             core.bump(res['faults'], fired if fk != 'CRASH'
                       else 'CRASH:' + fault['exc'])
-        changed = before != after
+        # a destination was produced iff an encoder call for it returned
+        # (calls are matched by the filename the encoder was told; without
+        # that information only the single-destination case is decided)
+        def produced(d):
+            named = [c for c in ctl['calls'] if isinstance(c[0], str)]
+            if named:
+                full = os.path.normpath(w.p(d))
+                return any(c[1] and os.path.normpath(os.path.join(
+                    w.root, c[0])) == full for c in named)
+            if len(dests) == 1:
+                return ctl['returned'] >= 1
+            return True
+        bad_i = None
+        for i, d in enumerate(dests):
+            if failed and not produced(d) and befores[i] != afters[i]:
+                bad_i = i
+                break
+        changed = befores != afters
         outcome = ('failed' if failed else 'ok') + (
             '+dest-changed' if changed else '')
         if exc is not None:
             outcome += ':' + type(exc).__name__
-        if failed and changed:
+        if bad_i is not None:
+            before, after, dest_rel = befores[bad_i], afters[bad_i], \
+                dests[bad_i]
             if not before[0]:
                 kind = 'created'
             elif not after[0]:
@@ -500,6 +555,8 @@ def execute(sc, profile=False):
         # probes
         if failed and before[0]:
             core.bump(res['probes'], 'failed-with-existing-destination')
+        if failed and len(dests) > 1 and ctl['returned'] == 1:
+            core.bump(res['probes'], 'second-of-two-carts-failed')
         if failed and sc['route'] in ('lib-overwrite', 'luafmt-overwrite'):
             core.bump(res['probes'], 'failed-while-overwriting-input')
         if fired in ('W-ERR', 'W-TORN'):
@@ -515,7 +572,7 @@ def execute(sc, profile=False):
                 core.bump(res['probes'], 'KeyboardInterrupt-swallowed-by-main')
         if encoder_failed:
             core.bump(res['probes'], 'encoder-entered-and-failed')
-        stray = sorted(files_after - files_before - {dest_rel})
+        stray = sorted(files_after - files_before - set(dests))
         if failed and stray:
             core.bump(res['probes'], 'stray-files-after-failure(not-a-violation)')
         res['nontrivial'] = bool(failed and (fired or fk == 'NONE') and
